@@ -978,7 +978,7 @@ def cf_tracer(block, res):
             dumps.append(cur)
         elif l.startswith("d misc") and cur is not None:
             t = l.split()
-            cur["flags"], cur["finished"], cur["stack_top"] = int(t[2], 16), t[5] == "1", int(t[9], 16)
+            cur["flags"], cur["finished"], cur["stack_top"] = int(t[2], 16), t[5] == "1", int(t[8], 16)
         elif l.startswith("d cs") and cur is not None:
             cur["cs"] = [int(x, 16) for x in l.split()[2:]]
         elif l.startswith("d trace") and cur is not None:
@@ -1083,3 +1083,5 @@ def c18(tier, seed, **kw):
                                        next(("rendering panicked: " + l for l in res if l.startswith("r render") and "panic" in l), None))
     res.setdefault("extra", {})["independent_tracer"] = dict(CF_STATS)
     return res
+
+import props_more  # noqa: E402,F401  (C17, C20, C15, C16)
